@@ -24,9 +24,9 @@ type ChanOp struct {
 	Kind     ChanOpKind
 	Fn       *ssa.Function
 	Instr    ssa.Instruction
-	Chan     ssa.Value     // for Send/Recv/Range/Close
-	Select   *ssa.Select   // for OpSelect
-	Deferred bool          // the op is a deferred call (close)
+	Chan     ssa.Value   // for Send/Recv/Range/Close
+	Select   *ssa.Select // for OpSelect
+	Deferred bool        // the op is a deferred call (close)
 }
 
 func isChan(t types.Type) bool {
